@@ -52,11 +52,20 @@ def rule_anchor(ctx):
         inside = any(c in list(U.calls(ast.Module(body=t.body, type_ignores=[]))) for c in cs)
         hn = [norm(h.type) if h.type is not None else 'bare' for h in t.handlers]
         falsy = all(len(h.body) == 1 and isinstance(h.body[0], ast.Return) and norm(h.body[0].value) == 'False' for h in t.handlers)
-        if inside and falsy and any(x in ('re.error', 'Exception', 'bare') for x in hn):
+        if inside and falsy and any('re.error' in x or x in ('Exception', 'bare') for x in hn):
             ok = True
     ctx.ob('C18.anchor', f'{f.fq}:malformed-pattern', ok,
            'compiling the incoming address can raise re.error (unbalanced [ or {, reversed range): the matcher must catch it and '
            'return False', f.node, m)
+    deep = False
+    for t in trs:
+        inside = any(c in list(U.calls(ast.Module(body=t.body, type_ignores=[]))) for c in cs)
+        hn = [norm(h.type) if h.type is not None else 'bare' for h in t.handlers]
+        if inside and any('RecursionError' in x or x in ('Exception', 'bare', 'BaseException') for x in hn):
+            deep = True
+    ctx.ob('C18.anchor', f'{f.fq}:over-deep-pattern', deep,
+           'the regex compiler recurses on nested groups: a peer can send an address nested deep enough for RecursionError, which must not '
+           'leave the matcher either (the receive functions after the matching dispatcher would be skipped for that datagram)', f.node, m)
     # a comma is an alternation only inside braces (OSC 1.0): the substitution callback must return the comma itself outside
     inner = [x for x in ast.walk(f.node) if isinstance(x, ast.FunctionDef) and x is not f.node]
     ok = False
@@ -216,6 +225,31 @@ def rule_effect(ctx):
         ctx.ob('C18.effect', f'{a.fq}:writes {cont}', writes_to(a.node, cont), f'{add} must store into {cont}', a.node, ci.module)
         ctx.ob('C18.effect', f'{r.fq}:deletes-from {cont}', deletes_from(r.node, cont),
                f'{rem} does not delete from {cont}: the action stays registered and keeps running', r.node, ci.module)
+    # the notification registry is keyed obj -> msg -> listener and unregister takes a key prefix: what it deletes is exactly as deep as
+    # the prefix the caller gave (removing the last listener of one message must not drop the object's other messages)
+    un = ctx.repo.func('sc3.base.model:NotificationCenter.unregister')
+    ps = un.params[1:]                       # obj, msg, listener
+    dels = [d for d in walk_local(un.node) if isinstance(d, ast.Delete)]
+    bad = []
+    for d in dels:
+        for t in d.targets:
+            depth, b = 0, t
+            while isinstance(b, ast.Subscript):
+                depth, b = depth + 1, b.value
+            if norm(b) != 'cls._registrations':
+                continue
+            given = 1
+            for q in ps[1:]:
+                # q is known to be given where the statement sits in the else-branch of `if q is None`
+                if any(isinstance(p_, ast.If) and norm(p_.test) == f'{q} is None' and U.in_body(d, p_, 'orelse') for p_ in U.parent_chain(d)):
+                    given += 1
+                else:
+                    break
+            if depth != given:
+                bad.append(f'{norm(d)[:60]} (key prefix of {given}, deletes at depth {depth})')
+    ctx.ob('C18.effect', f'{un.fq}:deletes-what-was-named', len(dels) >= 3 and not bad,
+           f'unregister deletes more or less than the caller named: {bad}: listeners registered under other message names of the object '
+           f'(or other listeners of the message) disappear with it', un.node, un.module)
     # enable/disable/free of responders go through the dispatcher's add/remove
     rf = ctx.repo.cls('sc3.base.responders:AbstractResponderFunc')
     en, dis, fr = rf.methods['enable'], rf.methods['disable'], rf.methods['free']
@@ -530,6 +564,11 @@ def run(ctx):
 
 
 MUTANTS = [
+    dict(rule='C18.anchor', name='(fix reverted) RecursionError of the regex compiler leaves the matcher', file='sc3/base/_oscmatch.py',
+         old="    except (re.error, RecursionError):", new="    except re.error:"),
+    dict(rule='C18.effect', name='removing the last listener of a message drops the whole object entry (seed C18-j)', file='sc3/base/model.py',
+         old="                del cls._registrations[obj][msg][listener]\n",
+         new="                del cls._registrations[obj][msg][listener]\n                if not cls._registrations[obj][msg]:\n                    del cls._registrations[obj]\n"),
     dict(rule='C18.effect', name='free disables only responders still listed in the proxy set (seed C18-i)', file='sc3/base/responders.py',
          old="            cls._all_func_proxies.remove(self)\n        if self.enabled:\n            self.disable()\n",
          new="            cls._all_func_proxies.remove(self)\n            if self.enabled:\n                self.disable()\n"),
@@ -546,7 +585,7 @@ MUTANTS = [
     dict(rule='C18.recv', name='(fix reverted) tcp receiver only catches OSError', file='sc3/base/_oscinterface.py',
          old="            except (OSError, ValueError, struct.error) as e:", new="            except OSError as e:"),
     dict(rule='C18.anchor', name='(fix reverted) re.error escapes the pattern matcher', file='sc3/base/_oscmatch.py',
-         old="    try:\n        return re.fullmatch(pattern, address) is not None\n    except re.error:\n        return False  # A malformed pattern ('/a[', '/a{x') matches nothing.\n", new="    return re.fullmatch(pattern, address) is not None\n"),
+         old="    try:\n        return re.fullmatch(pattern, address) is not None\n    except (re.error, RecursionError):\n        # A malformed pattern ('/a[', '/a{x') matches nothing, neither does\n        # one nested deeper than the regex compiler can follow.\n        return False\n", new="    return re.fullmatch(pattern, address) is not None\n"),
     dict(rule='C18.wire', name='(fix reverted) unknown type tags are skipped without consuming their data', file='sc3/base/_osclib.py',
          old="                    raise OscMessageParseError(\n                        f'Unhandled parameter type: {param}')\n", new="                    _logger.warning(f'Unhandled parameter type: {param}')\n                    continue\n"),
     dict(rule='C18.snap', name='(fix reverted) ServerAction runs an action removed during the run', file='sc3/base/systemactions.py',
